@@ -401,6 +401,34 @@ def rule_null(ctx, rep):
             r.finding("handle_request|Err-arm", "%s:%d" % (h.f["file"], h.f["line"]), "the Err arm of tokenize does not answer with a null result")
 
 
+VEC_DROPPERS = ("dedup", "dedup_by", "dedup_by_key", "retain", "retain_mut", "truncate", "remove", "swap_remove", "pop", "drain", "clear", "split_off",
+                "sort", "sort_by", "sort_by_key", "sort_unstable", "sort_unstable_by", "sort_unstable_by_key", "reverse", "insert", "extract_if")
+
+
+def rule_nodrop(ctx, rep, rid="R-C15-nodrop"):
+    """The relative encoding makes every token's position depend on all tokens before it.  Once the list is encoded, removing,
+    reordering or inserting an element shifts every later token.  No Vec<SemanticToken> in the language-server crate is modified in
+    place (only built by collect/push), and no dropping/reordering iterator adaptor runs over already encoded tokens."""
+    r = rep.rule(rid, "a list of (relative-encoded) SemanticTokens is never edited in place: no dedup/retain/remove/sort/... on a Vec<SemanticToken>",
+                 floor=0, floor_what="in-place edits of token lists")
+    n = 0
+    for b in sorted(ctx.prog.bodies.values(), key=lambda x: x.id):
+        if b.f["crate"] != "ironplcc" or "::test" in norm(b.id):
+            continue
+        k = 0
+        for c in sorted(b.calls(), key=lambda c: (c.loc[0], c.loc[1])):
+            nm = c.callee or ""
+            m = nm.split("::")[-1]
+            if m in VEC_DROPPERS and ("alloc::vec::Vec" in nm or "slice" in nm) and "SemanticToken" in (c.ga or ""):
+                k += 1
+                n += 1
+                r.finding("%s|%s#%d" % (norm(b.id).replace("ironplcc::", ""), m, k), loc_str(b.f, c.loc), "%s() on a list of semantic tokens: positions are relative to the previous token, so "
+                          "removing or moving one element shifts every token after it" % m)
+    if not n:
+        r.count_override = 1
+        r.note("no in-place edit of a Vec<SemanticToken> today (zero expected; positive example: seeded/C15-K)")
+
+
 def rule_newline(ctx, rep, rid="R-C15-newline"):
     """The line of a token is what the lexer's counter says; the client splits the same text at the protocol's line terminators
     (LF, CR LF, lone CR).  The two agree on the Newline token only if every string that token can match contains as many characters
@@ -508,4 +536,5 @@ def run(ctx, rep):
     c15_units.run(ctx, rep)
     rule_verbatim(ctx, rep)
     rule_newline(ctx, rep)
+    rule_nodrop(ctx, rep)
     # R-C05-noop (column after a comment) is decided under C05
